@@ -35,7 +35,7 @@ OPS = ['fuse02', 'fuse01_unfuse', 'dot', 'dot_nf', 'dot_f2m', 'trace', 'swap', '
 
 def cases(tier, seed):
     out = []
-    n = 16 if tier == 'quick' else 500
+    n = 16 if tier == 'quick' else 1500
     for i in range(n):
         for fam in ('one', 'two'):
             out.append({'id': f'hist-{fam}-{i}', 'kind': 'history', 'fam': fam, 'tier': tier, 'seed': hash_seed(seed, 'C16', fam, i)})
